@@ -29,6 +29,11 @@ func verifField(v reflect.Value, pick func(t reflect.Type) bool) (reflect.Value,
 	return reflect.Value{}, false
 }
 
+// VerifUninspectable is the only "problem" reported when the cache no longer has the shape this accessor can read (an
+// index map keyed by the compressed key, a container/list recency list, an int capacity).  That is not a violation - a
+// refactoring may legitimately change the representation: the harnesses then fall back to purely behavioural oracles.
+const VerifUninspectable = "UNINSPECTABLE: lruCache no longer has an index map keyed by the compressed key, a container/list recency list and an int capacity"
+
 var (
 	verifKeyType  = reflect.TypeOf(curve.CompressedEdwardsY{})
 	verifListType = reflect.TypeOf(list.List{})
@@ -46,10 +51,12 @@ func VerifLRUState(c Cache) (order []curve.CompressedEdwardsY, storeLen, capacit
 	}
 	rv := reflect.ValueOf(l).Elem()
 	storeV, ok1 := verifField(rv, func(t reflect.Type) bool { return t.Kind() == reflect.Map && t.Key() == verifKeyType })
-	listV, ok2 := verifField(rv, func(t reflect.Type) bool { return t == verifListType || (t.Kind() == reflect.Ptr && t.Elem() == verifListType) })
+	listV, ok2 := verifField(rv, func(t reflect.Type) bool {
+		return t == verifListType || (t.Kind() == reflect.Ptr && t.Elem() == verifListType)
+	})
 	capV, ok3 := verifField(rv, func(t reflect.Type) bool { return t.Kind() == reflect.Int })
 	if !ok1 || !ok2 || !ok3 {
-		return nil, 0, 0, []string{"lruCache no longer has an index map keyed by the compressed key, a container/list recency list and an int capacity: its structure cannot be inspected"}
+		return nil, 0, 0, []string{VerifUninspectable}
 	}
 	var lst *list.List
 	if listV.Kind() == reflect.Ptr {
